@@ -34,6 +34,7 @@ type LoadOpts struct {
 	Patterns []string
 	Overlay  map[string][]byte
 	InitPkgs []string // import paths whose package initialisers are executed (in this order)
+	ZeroPkgs []string // packages whose globals are zero (init not run), e.g. internal/cpu = no CPU features
 }
 
 func Load(o LoadOpts) (*Program, error) {
@@ -67,6 +68,9 @@ func Load(o LoadOpts) (*Program, error) {
 	// global cells: initialised packages get zero values, others are poisoned
 	initSet := map[string]bool{}
 	for _, ip := range o.InitPkgs {
+		initSet[ip] = true
+	}
+	for _, ip := range o.ZeroPkgs {
 		initSet[ip] = true
 	}
 	var paths []string
